@@ -6,6 +6,7 @@ import (
 	"go/constant"
 	"go/token"
 	"go/types"
+	"os"
 	"sort"
 	"strings"
 
@@ -3113,4 +3114,258 @@ func init() {
 	registry["C02"].Rules = append(registry["C02"].Rules, func(c *Ctx, r *Result) { remainderGuardRule(c, r, "C02.17", 1) })
 	registry["C11"].Meta.Rules["C11.23"] = txt + " (shared with C02.17)"
 	registry["C11"].Rules = append(registry["C11"].Rules, func(c *Ctx, r *Result) { remainderGuardRule(c, r, "C11.23", 1) })
+}
+
+// ---- padding to a size pads to that size (C04.16 / C03.23) ----
+//
+// if len(x) < S { x = append(x, make([]byte, E)...) }: E = S - len(x). With E = S + len(x) the image written is longer than the
+// segment reserved for it and runs over whatever is allocated behind it.
+func padToSizeRule(c *Ctx, r *Result, rule string, floor int) {
+	n := 0
+	for _, fn := range c.LibFuncs() {
+		if fn.Blocks == nil {
+			continue
+		}
+		var fb *FB
+		k := 0
+		instrs(fn, func(in ssa.Instruction) {
+			ms, ok := in.(*ssa.MakeSlice)
+			if !ok || !isBytesOrString(ms.Type()) {
+				return
+			}
+			// appended whole to some x
+			var target ssa.Value
+			for _, ref := range *ms.Referrers() {
+				if call, isCall := ref.(*ssa.Call); isCall {
+					if b, isB := call.Call.Value.(*ssa.Builtin); isB && b.Name() == "append" && len(call.Call.Args) == 2 && call.Call.Args[1] == ssa.Value(ms) {
+						target = call.Call.Args[0]
+					}
+				}
+			}
+			if target == nil {
+				return
+			}
+			if fb == nil {
+				fb = c.FB(fn)
+			}
+			total := fb.lin(ms.Len).add(fb.lenLin(target), 1)
+			// a dominating test len(x) < S
+			for _, b := range fn.Blocks {
+				ifi, isIf := b.Instrs[len(b.Instrs)-1].(*ssa.If)
+				if !isIf {
+					continue
+				}
+				cmp, isC := ifi.Cond.(*ssa.BinOp)
+				if !isC || cmp.Op != token.LSS || !edgeDominates(b, b.Succs[0], ms.Block()) {
+					continue
+				}
+				if os.Getenv("H5SA_DEBUG_PAD") != "" {
+					fmt.Fprintf(os.Stderr, "pad: %s cmp.X=%s len(target)=%s total=%s Y=%s\n", c.Name(fn), fb.linString(fb.lin(cmp.X)), fb.linString(fb.lenLin(target)), fb.linString(total), fb.linString(fb.lin(cmp.Y)))
+				}
+				// (a sequence held in a field is loaded anew at each use and nothing stores to it between the test and the
+				// append: symbols are compared by name)
+				if !sameByName(fb, fb.lin(cmp.X), fb.lenLin(target)) {
+					continue
+				}
+				n++
+				k++
+				r.Check(sameByName(fb, total, fb.lin(cmp.Y)), rule, fmt.Sprintf("%s#pads-to-the-tested-size-%d", c.Name(fn), k), c.InstrPos(ms), "behind len(x) < S the padding appended to x brings it to S: len(x) + padding = "+fb.linString(total)+", S = "+fb.linString(fb.lin(cmp.Y)))
+			}
+		})
+	}
+	if n < floor {
+		r.Shortfall(c, rule, fmt.Sprintf("%s: only %d pad-to-size sites found (expected >= %d)", rule, n, floor))
+	}
+}
+
+func init() {
+	txt := "padding to a size pads to that size: where, behind len(x) < S, make([]byte, E) is appended to x, len(x) + E = S (LocalHeap.WriteTo padding with DataSegmentSize + len(strings) writes a heap image longer than its reserved segment: in a version 0 file the first object behind the root heap is zeroed by every later creation in the root group)"
+	registry["C04"].Meta.Rules["C04.16"] = txt
+	registry["C04"].Rules = append(registry["C04"].Rules, func(c *Ctx, r *Result) { padToSizeRule(c, r, "C04.16", 1) })
+	registry["C03"].Meta.Rules["C03.23"] = txt + " (shared with C04.16)"
+	registry["C03"].Rules = append(registry["C03"].Rules, func(c *Ctx, r *Result) { padToSizeRule(c, r, "C03.23", 1) })
+}
+
+func sameByName(fb *FB, a, b Lin) bool {
+	m := map[string]int64{"": a.C - b.C}
+	for k, co := range a.T {
+		m[fb.symName(k)] += co
+	}
+	for k, co := range b.T {
+		m[fb.symName(k)] -= co
+	}
+	for _, v := range m {
+		if v != 0 {
+			return false
+		}
+	}
+	return true
+}
+
+// ---- a rejection test is not stricter than the slice it protects (C04.17 / C12.18 / C06.22) ----
+//
+// if E > len(x) { return error }; ... x[lo:E]: the slice needs E <= len(x) and no more. With >= the record that ends exactly at
+// the end of its buffer is refused (and with it everything else in that buffer).
+func exactRejectionRule(c *Ctx, r *Result, rule string, floor int) {
+	n := 0
+	for _, fn := range c.LibFuncs() {
+		if fn.Blocks == nil {
+			continue
+		}
+		var fb *FB
+		k := 0
+		for _, b := range fn.Blocks {
+			ifi, ok := b.Instrs[len(b.Instrs)-1].(*ssa.If)
+			if !ok {
+				continue
+			}
+			cmp, ok := ifi.Cond.(*ssa.BinOp)
+			if !ok {
+				continue
+			}
+			var e, l ssa.Value
+			strict := false // the test refuses E == L
+			switch cmp.Op {
+			case token.GTR:
+				e, l = cmp.X, cmp.Y
+			case token.GEQ:
+				e, l, strict = cmp.X, cmp.Y, true
+			case token.LSS:
+				e, l = cmp.Y, cmp.X
+			case token.LEQ:
+				e, l, strict = cmp.Y, cmp.X, true
+			default:
+				continue
+			}
+			if !errorOnlyBlock(b.Succs[0], 0) {
+				continue
+			}
+			region := edgeRegion(b, b.Succs[1])
+			if len(region) == 0 {
+				continue
+			}
+			if fb == nil {
+				fb = c.FB(fn)
+			}
+			le, ll := fb.lin(e), fb.lin(l)
+			if le.isConst() {
+				continue
+			}
+			matched := false
+			var at ssa.Instruction
+			beyond := false
+			for blk := range region {
+				for _, in := range blk.Instrs {
+					sl, isSl := in.(*ssa.Slice)
+					if !isSl || sl.High == nil {
+						continue
+					}
+					if !sameByName(fb, fb.lenLin(sl.X), ll) {
+						continue
+					}
+					d := fb.lin(sl.High).add(le, -1)
+					if sameByName(fb, fb.lin(sl.High), le) {
+						matched, at = true, in
+					} else if d.isConst() && d.C > 0 {
+						beyond = true
+					}
+				}
+			}
+			// x[E] itself is read somewhere (the terminator a scan stopped at): then E < len is what the code needs
+			if matched {
+				instrs(fn, func(in ssa.Instruction) {
+					var bx, ix ssa.Value
+					switch x := in.(type) {
+					case *ssa.IndexAddr:
+						bx, ix = x.X, x.Index
+					case *ssa.Index:
+						bx, ix = x.X, x.Index
+					case *ssa.Lookup:
+						bx, ix = x.X, x.Index
+					default:
+						return
+					}
+					if sameByName(fb, fb.lenLin(bx), ll) && sameByName(fb, fb.lin(ix), le) {
+						beyond = true
+					}
+				})
+			}
+			if !matched || beyond {
+				continue
+			}
+			n++
+			k++
+			r.Check(!strict, rule, fmt.Sprintf("%s#rejection-no-stricter-than-the-slice-%d", c.Name(fn), k), c.InstrPos(cmp), "the slice at "+c.InstrPos(at)+" ends at E and needs E <= len; the rejection test refuses E > len and nothing more")
+		}
+	}
+	if n < floor {
+		r.Shortfall(c, rule, fmt.Sprintf("%s: only %d rejection tests in front of a slice with the tested end found (expected >= %d)", rule, n, floor))
+	}
+}
+
+func init() {
+	txt := "a rejection test is not stricter than the slice it protects: where `E > len(x)` (or a mirrored form) leads to an error return and the code behind it takes x[..:E], and nothing longer, the comparison is strict (with >= a global heap object that ends exactly at the end of its collection is refused, and with it every other object of the collection: filling a collection makes the strings of other datasets unreadable)"
+	registry["C04"].Meta.Rules["C04.17"] = txt
+	registry["C04"].Rules = append(registry["C04"].Rules, func(c *Ctx, r *Result) { exactRejectionRule(c, r, "C04.17", 20) })
+	registry["C12"].Meta.Rules["C12.18"] = txt + " (shared with C04.17)"
+	registry["C12"].Rules = append(registry["C12"].Rules, func(c *Ctx, r *Result) { exactRejectionRule(c, r, "C12.18", 20) })
+	registry["C06"].Meta.Rules["C06.22"] = txt + " (shared with C04.17)"
+	registry["C06"].Rules = append(registry["C06"].Rules, func(c *Ctx, r *Result) { exactRejectionRule(c, r, "C06.22", 20) })
+}
+
+// ---- a reopened file is extended, not overwritten (C04.18 / C10.18) ----
+func init() {
+	txt := "a session on an existing file allocates behind what the file holds: the offset OpenFileWriter hands to NewAllocator is, on every path, at least the size the file's Stat reports (with the test of the caller's offset turned round, every OpenForWrite session allocates from just behind the superblock: the structures of the first dense attribute are written over the objects that follow)"
+	rule := func(id string) func(c *Ctx, r *Result) {
+		return func(c *Ctx, r *Result) {
+			fn := c.FnOpt("writer.OpenFileWriter")
+			cons := "writer.OpenFileWriter#allocator-starts-at-or-behind-the-file-size"
+			if fn == nil {
+				r.Undec(id, cons, "", "writer.OpenFileWriter not found")
+				return
+			}
+			var size ssa.Value
+			var alloc *ssa.Call
+			instrs(fn, func(in ssa.Instruction) {
+				call, ok := in.(*ssa.Call)
+				if !ok {
+					return
+				}
+				if call.Call.IsInvoke() && call.Call.Method.Name() == "Size" {
+					size = call
+				}
+				if f := call.Call.StaticCallee(); f != nil && c.Name(f) == "writer.NewAllocator" {
+					alloc = call
+				}
+			})
+			if size == nil || alloc == nil {
+				r.Undec(id, cons, c.Pos(fn.Pos()), "Stat().Size() or the NewAllocator call was not found")
+				return
+			}
+			fb := c.FB(fn)
+			ls := fb.lin(size)
+			arg := alloc.Call.Args[0]
+			ok := true
+			why := ""
+			if phi, isPhi := arg.(*ssa.Phi); isPhi {
+				for i, e := range phi.Edges {
+					pred := phi.Block().Preds[i]
+					t := fb.lin(e).add(ls, -1)
+					if !(t.isConst() && t.C >= 0) && !fb.ProveGE0At(t, pred.Instrs[len(pred.Instrs)-1]) {
+						ok = false
+						why = "on the path through block " + fmt.Sprint(pred.Index) + " the offset is " + fb.linString(fb.lin(e)) + ", not known to be >= " + fb.linString(ls)
+					}
+				}
+			} else {
+				t := fb.lin(arg).add(ls, -1)
+				ok = (t.isConst() && t.C >= 0) || fb.ProveGE0At(t, alloc)
+				why = "the offset is " + fb.linString(fb.lin(arg))
+			}
+			r.Check(ok, id, cons, c.InstrPos(alloc), firstNonEmpty(why, "on every path the allocator's first address is at least the file size"))
+		}
+	}
+	registry["C04"].Meta.Rules["C04.18"] = txt
+	registry["C04"].Rules = append(registry["C04"].Rules, rule("C04.18"))
+	registry["C10"].Meta.Rules["C10.18"] = txt + " (shared with C04.18)"
+	registry["C10"].Rules = append(registry["C10"].Rules, rule("C10.18"))
 }
